@@ -14,6 +14,7 @@ RULE = (
     "positions) and an optional cash fraction, with integer or fractional positions and any commission spec / spread. Oracle: fractional and cost-free: every target's weight == (1-c) x w "
     "(1e-9), every non-target with a position is flat, cash fraction == 1 - (1-c) x sum(w); otherwise each target's value is within one unit + the rebalance's costs of (1-c) x w x base and "
     "total value dropped by exactly the recorded costs; a sub-strategy target's value moved to its target and its children moved in proportion to their weights before. "
+    "fi_rebalance: fixed-income books (C17's generator, flat and nested, long/short, all security types): right after Rebalance every target's notional == weight x notional base. "
     "over_time: RebalanceOverTime(n) driven for n+1 consecutive dates with moving prices: after call k the gap to target is (n-k)/(n-k+1) of the gap before the call, after call n the "
     "weights equal the targets, call n+1 trades nothing. over_time_rearm: a transition replaced by new targets before it has finished (the first arming optionally with a cash fraction): the "
     "second transition is n equal steps to the new targets, non-targets closed, cash fraction 1 - sum(w), nothing of the first arming survives. non-trivial = prior portfolio non-empty and different from the target. distinct = distinct spec hashes."
@@ -401,7 +402,33 @@ SUBS = {"rebalance": case_rebalance, "over_time": case_over_time, "over_time_rea
 STRATS = {"rebalance": rebalance_spec, "over_time": over_time_spec, "over_time_rearm": rearm_spec}
 
 
+def _fi_spec():
+    from . import c17
+
+    return c17.run_spec()
+
+
+def case_fi_rebalance(ctx, spec):
+    """Rebalance on fixed-income books (weights are fractions of notional there): C17's generator and its probe right after Rebalance;
+    only the target clause is judged here (notional of every target == weight x notional base, nested books scaled as a whole), the
+    rest of that check (coupons, carry, index) is C17's business"""
+    from . import c17
+
+    try:
+        res = c17.case_run(ctx, spec)
+    except Violation as v:
+        if str(getattr(v, "signature", "")).startswith("c17:target-notional") or str(getattr(v, "signature", "")).startswith("c17:setnotional"):
+            raise
+        raise Discard("a different clause of C17 fails (C17's business)")
+    return {"nontrivial": bool(res and res.get("nontrivial")), "labels": ["fixed_income_book"] + (["nested"] if spec.get("nested") else [])}
+
+
+SUBS["fi_rebalance"] = case_fi_rebalance
+STRATS["fi_rebalance"] = _fi_spec
+
+
 def shard(ctx):
     run_sub(ctx, "rebalance", rebalance_spec(), lambda s: case_rebalance(ctx, s), ctx.n(4000, 60000))
     run_sub(ctx, "over_time", over_time_spec(), lambda s: case_over_time(ctx, s), ctx.n(1000, 15000))
     run_sub(ctx, "over_time_rearm", rearm_spec(), lambda s: case_over_time_rearm(ctx, s), ctx.n(600, 9000))
+    run_sub(ctx, "fi_rebalance", _fi_spec(), lambda s: case_fi_rebalance(ctx, s), ctx.n(800, 10000))
